@@ -100,3 +100,9 @@ def run(chk):
     fam.append((['I3'], core3i if thorough else core3i[::2]))
     fam.append((['F2'], core if thorough else core[::3]))
     UC.run_family(chk, 'C01', fam, entries=entries)
+    # bounded-exhaustive small plain formulas (thorough: every formula with <= 4 nodes; quick: a seed-chosen sample incl. size 5)
+    kw = dict(wild=(), doms=(None,), un=('not', 'EX', 'AX', 'EF', 'AG', 'EG', 'AF'), bins=('and', 'or', 'EU', 'AU'), props=('v0', 'v1'))
+    small = [f for sz in (2, 3, 4) for f in G.enumerate_formulas(sz, **kw)] if thorough else G.sample_small(chk.rng, 240, sizes=(3, 4, 5), **kw)
+    chk.bounds['E-UNI sweep'] = f'{len(small)} plain formulas over a reduced alphabet: ' + ('every formula with <= 4 nodes' if thorough else 'seed-chosen sample of the formulas with 3..5 nodes')
+    UC.sweep(chk, 'C01', small, which=('U2', 'C2') if thorough else ('U2',), entry='formula_dirty')
+
